@@ -21,6 +21,8 @@ SIBLINGS = [
 ]
 CONTENT_NODE_KINDS = ["Assignment", "Block", "Section"]  # Comment carries no key/value
 VALUE_KINDS = ["ListValue", "InlineMap", "LiteralZoneValue", "HolographicValue"]
+# a block nested in META is parsed into a plain dict of AST values (Parser.parse_meta_block: nested_meta) - a value kind of its own
+PLAIN_VALUE_KINDS = ["dict"]
 
 
 def isinstance_classes(fi: FuncInfo) -> set[str]:
@@ -58,7 +60,7 @@ def delegate_of(fi: FuncInfo, res: Resolver) -> FuncInfo | None:
 def check(run: Run) -> None:
     res = Resolver(run.project)
     am = AstModel(run.project)
-    run.rule("R14.1", "exhaustive converters: every format converter has a branch for every node kind that carries keys/values (Assignment, Block, Section) or every value kind (ListValue, InlineMap, LiteralZoneValue, HolographicValue)", 24)
+    run.rule("R14.1", "exhaustive converters: every format converter has a branch for every node kind that carries keys/values (Assignment, Block, Section) or every value kind (ListValue, InlineMap, LiteralZoneValue, HolographicValue, and the plain dict a block nested in META is parsed into)", 24)
     run.rule("R14.2", "honest lossy flag: in project(), whenever the projected document is not the input document itself, lossy is the constant True; otherwise the input document is passed through unchanged", 5)
     run.rule("R14.3", "no invention: the projector builds nodes only with dataclasses.replace(node, children=...) / replace(doc, sections=...), appends only existing or so-rebuilt nodes and writes no field", 6)
     run.rule("R14.4", "sibling agreement: the MCP and CLI copies of each converter dispatch on the same kinds", 3)
@@ -74,6 +76,9 @@ def check(run: Run) -> None:
         if k not in produced:
             raise AnalysisError(f"node/value kind {k} is not constructed anywhere in parser.py (model out of date)")
     run.extra["kinds_constructed_by_parser"] = sorted(produced)
+    pmb = pm.func("Parser.parse_meta_block")
+    if not any(isinstance(n, ast.AnnAssign) and isinstance(n.target, ast.Name) and "dict" in ast.unparse(n.annotation) and any(isinstance(a, ast.Assign) and isinstance(a.targets[0], ast.Subscript) and ast.unparse(a.value) == n.target.id for a in walk_no_nested(pmb.node)) for n in walk_no_nested(pmb.node)):
+        raise AnalysisError("parse_meta_block no longer stores a nested block as a plain dict (model out of date)")
 
     # ---------------------------------------------------------------- R14.1
     classes: dict[tuple[str, str], set[str]] = {}
@@ -85,7 +90,7 @@ def check(run: Run) -> None:
             run.note(f"{m.relpath}:{qual} is a pure wrapper of {impl.fqn}: analysed as that function")
         cl = isinstance_classes(impl or fi)
         classes[(modname, qual)] = cl
-        need = CONTENT_NODE_KINDS if kind == "nodes" else VALUE_KINDS
+        need = CONTENT_NODE_KINDS if kind == "nodes" else VALUE_KINDS + PLAIN_VALUE_KINDS
         for k in need:
             ok = k in cl
             run.instance("R14.1", m.loc(fi.node), f"{qual}: branch for {k}", ok=ok)
@@ -93,6 +98,7 @@ def check(run: Run) -> None:
                 what = ("everything under a §N::NAME section marker is absent from this format although the projection reports lossy=false" if k == "Section" else
                         "a holographic value falls through to the identity branch and makes json.dumps raise TypeError / leaks a Python repr" if k == "HolographicValue" else
                         "a literal zone falls through to the identity branch (TypeError in json.dumps / Python repr in the output)" if k == "LiteralZoneValue" else
+                        "a block nested in META (plain dict of AST values) falls through to the identity branch: its ListValue / InlineMap members make json.dumps raise TypeError and leak python objects into YAML / Markdown" if k == "dict" else
                         f"{k} content is dropped by this converter")
                 run.violation("R14.1", m, qual, f"no branch for {k}", f"{qual} has no branch for {k}: {what}", line=fi.node.lineno)
 
